@@ -487,8 +487,9 @@ class BaseModel(object):
         return instance
 
     def _set_persisted(self, force=False):
-        # ensure we don't modify to any values not affected by the last save/update
-        for v in [v for v in self._values.values() if v.changed or force]:
+        # ensure we don't modify to any values not affected by the last save/update:
+        # a manager is affected if its value was written (changed) or its column was deleted (nulled)
+        for v in [v for v in self._values.values() if v.changed or v.deleted or force]:
             v.reset_previous_value()
             v.explicit = False
         self._is_persisted = True
